@@ -2,6 +2,7 @@ SPECIFICATION Spec
 CONSTANTS
   Devs = {"d1", "d2"}
   ParkUnderLock = TRUE
+  RequeueAll = TRUE
   SignalBuffered = TRUE
 INVARIANTS NoStranded AllDelivered AtMostOnce OnlyDecryptable NoDeadlock
 VIEW view
